@@ -29,6 +29,9 @@ def run(ctx) -> None:
     ctx.rule("R1", "both readers share the BOOL_OPTIONS loop and _set_raw_config_defaults; dispatch on format; single _parse_config")
     ctx.rule("R2", "every key _parse_config consumes can come from both readers; INI boolean spellings")
     ctx.rule("R3", "section names agree: readers == self-pattern parser == init templates")
+    ctx.rule("R6", "prerequisite: which file is read - a file holding a bumpver section is preferred, recognised by exactly the readers' headers (C19/R4)")
+    from sa.report import run_prerequisite
+    run_prerequisite(ctx, "C19", ("R4",), "R6")
     ctx.rule("R5", "INI file_patterns value: every non-blank line is one pattern (text on the key line included), none skipped by position")
     ctx.rule("R4", "normaliser invariants: tag/push require commit; None -> False; TagScope(...)")
 
